@@ -122,6 +122,7 @@ def run(ctx, rep):
                               '%s releases clusters whose address does not derive from the reference being removed' % short(b.path))
     rep.floor('free_clusters call sites', n, 6)
     stale_entry_rule(f, P, rep)
+    abandoned_run_rule(f, P, rep, 'C03.9')
     # C03.6: a mapping is installed / removed on a decision read under the same slice write guard
     from ..critsec import check_then_act
     rep.rule('C03.6', 'mappings are installed and removed on a decision read through the slice write guard the mutation happens under '
@@ -329,3 +330,87 @@ def stale_entry_rule(f, P, rep):
                               'range: behind a refcount-block boundary the wrong refcount block is loaded and modified, the '
                               'cluster that should be released keeps its refcount' % short(b.path))
     rep.floor('get_refblock call sites', n, 3)
+
+
+def abandoned_run_rule(f, P, rep, rid):
+    """An allocator that collects a run piece by piece and gives it up (count := 0 after its initialisation, to start
+    again elsewhere) has already incremented the refcounts of the pieces it holds: before the count is reset a release that
+    depends on the run (start, count) must have been issued, otherwise those clusters keep refcount 1 with no reference."""
+    from ..critsec import _through_copy
+    from ..guard import Deps
+    rep.rule(rid, 'where a run collected piece by piece is given up (its count is reset to 0 after the initialisation), a '
+                  'free_clusters call that depends on the run dominates the reset: abandoned pieces are released, not leaked')
+    n_sites = 0
+    for b in f.body_list:
+        if '::tests::' in b.path or not b.is_coroutine:
+            continue
+        defs = P.defs(b)
+        pairs = set()
+        for bi in b.reachable():
+            for s in b.blocks[bi]['st']:
+                if s['k'] == 'assign' and s['rv']['k'] == 'agg' and s['rv'].get('ak') == 'tuple' and len(s['rv']['ops']) == 2:
+                    o0, o1 = s['rv']['ops']
+                    if o0['k'] in ('copy', 'move') and o1['k'] in ('copy', 'move') and not o0['pl']['p'] and not o1['pl']['p']:
+                        a, n = _through_copy(b, defs, o0['pl']['l']), _through_copy(b, defs, o1['pl']['l'])
+                        if b.ty(a).get('p') == 'u64' and b.ty(n).get('p') == 'usize' and a in b.names and n in b.names:
+                            pairs.add((a, n))
+        if not pairs:
+            continue
+        dp = Deps(P, b)
+        frees = [(bi, t) for bi, t in b.calls() if (t.get('fn') or '').endswith('::free_clusters')]
+        for (a, n) in sorted(pairs):
+            zero = sorted((d[1], d[2]) for d in defs.get(n, []) if d[0] == 'st' and
+                          b.blocks[d[1]]['st'][d[2]]['rv']['k'] == 'use' and b.blocks[d[1]]['st'][d[2]]['rv']['ops'][0].get('v') == '0')
+            grows = any(d[0] == 'st' and b.blocks[d[1]]['st'][d[2]]['rv']['k'] == 'use' and
+                        b.blocks[d[1]]['st'][d[2]]['rv']['ops'][0]['k'] in ('copy', 'move') for d in defs.get(n, []))
+            if len(zero) < 2 or not grows:
+                continue
+            for (zbi, zsi) in zero[1:]:
+                n_sites += 1
+                dom = []
+                for fbi, ft in frees:
+                    if not b.dominates(fbi, zbi):
+                        continue
+                    ls = set()
+                    for arg in ft['args'][1:]:
+                        if arg['k'] in ('copy', 'move'):
+                            ls.add(_through_copy(b, defs, arg['pl']['l']))
+                            for x in dp.of_operand(arg, (fbi, 10 ** 6)):
+                                if x[0] == 'local':
+                                    ls.add(x[1])
+                    # the start or the count of the run reaches the release (directly or through a sum / shift)
+                    if ls & {a, n} or _mentions_locals(b, defs, ft['args'][1:], {a, n}):
+                        dom.append(fbi)
+                ok = bool(dom)
+                fn = short(b.path)
+                rep.ob(rid, '%s: run (%s, %s) given up at %s' % (fn, b.lname(a), b.lname(n), b.where(zbi)), ok,
+                       'release of the run at %s dominates the reset' % b.where(dom[0]) if ok else 'no release of the run dominates the reset')
+                if not ok:
+                    rep.violation(rid, '%s:%s' % (rid, fn), b.where(zbi),
+                                  '%s gives up the run (%s, %s) it has collected (count reset at %s) without releasing the pieces it already '
+                                  'took: their refcounts were incremented by the allocation, nothing references them - leaked clusters in '
+                                  'every later flushed image' % (fn, b.lname(a), b.lname(n), b.where(zbi)))
+    rep.floor('run restarts in piecewise allocators', n_sites, 1)
+
+
+def _mentions_locals(b, defs, args, want, depth=4):
+    """do the argument operands derive (through copies, casts and arithmetic, a few steps) from one of the locals `want`"""
+    seen = set()
+    work = [a['pl']['l'] for a in args if a['k'] in ('copy', 'move')]
+    for _ in range(depth * 8):
+        if not work:
+            break
+        l = work.pop()
+        if l in seen:
+            continue
+        seen.add(l)
+        if l in want:
+            return True
+        for d in defs.get(l, []):
+            if d[0] != 'st':
+                continue
+            rv = b.blocks[d[1]]['st'][d[2]]['rv']
+            for o in rv.get('ops', []):
+                if o['k'] in ('copy', 'move'):
+                    work.append(o['pl']['l'])
+    return False
